@@ -37,7 +37,7 @@ def text_default(evs, clauses):
 
 
 def run_family(run, pid, family, prefixes, extra=None, sig=None, text=None, selftests=(), module="SyncTrace",
-               drive_timeout=1800, assumptions=None, mc=None, level="model_checking", post=None, name=None, witness=False):
+               drive_timeout=1800, assumptions=None, mc=None, level="model_checking", post=None, name=None, witness=False, also=()):
     run.build()
     if mc:
         mc(run)
@@ -50,6 +50,15 @@ def run_family(run, pid, family, prefixes, extra=None, sig=None, text=None, self
     for nm, fn in selftests:
         selftest_corrupt_prefixed(run, module, trace, fn, nm, prefixes)
     fails = confirm_by_replay_prefixed(run, family, module, tr, prefixes, sig or sig_default, text or text_default, extra, witness=witness)
+    # further drivers whose traces carry clauses of this property (same monitor, other scenario family)
+    for fam2, extra2, name2 in also:
+        t2, _ = run.drive(fam2, name=name2, extra=extra2, timeout=drive_timeout)
+        tr2_all = run.tlc_trace(module, t2)
+        hf = harness_failures(tr2_all)
+        if hf:
+            raise Inconclusive("harness-level inconsistency in trace: %s" % hf[:3])
+        fails += confirm_by_replay_prefixed(run, fam2, module, filter_prefix(tr2_all, prefixes), prefixes, sig or sig_default,
+                                            text or text_default, extra2, witness=witness)
     if post:
         post(run, tr_all, st)
     return finish(run, level, fails, assumptions=assumptions or [])
